@@ -76,7 +76,7 @@ def cmpOfName : String → Option CmpOp
   | "less" => some .lt | "greater_equal" => some .ge | "less_equal" => some .le
   | _ => none
 
-def handle (op : String) (args : List String) : Option String :=
+def handleModel (op : String) (args : List String) : Option String :=
   match op, args with
   | "add", [a, b] => do let a ← parseSArr? a; let b ← parseSArr? b; some (rS (add B a b))
   | "multiply", [a, n] => do let a ← parseSArr? a; let n ← parseNArr? n; some (rS (multiplyA B a n))
@@ -128,6 +128,12 @@ def handle (op : String) (args : List String) : Option String :=
   | name, [a, b] => do
     let o ← cmpOfName name; let a ← parseSArr? a; let b ← parseSArr? b; some (rB (cmpA B o a b))
   | _, _ => none
+
+/-- Giant arrays (above 2^20 strings) are named `iota:<shape>+<offset>` / `iotap:…` in the case line and are not built here: the answer
+`native` tells the harness to judge the real result by its native per-string reference, which it compares with THIS model's answer on
+every smaller case of the same run that the reference covers (the closing `refstats` line reports how many). -/
+def handle (op : String) (args : List String) : Option String :=
+  if op == "refstats" || args.any (fun a => a.startsWith "iota") then some "native" else handleModel op args
 
 end Driver.C17
 
